@@ -587,15 +587,18 @@ func explain(p rProg, ref *refState, k int, got effect, gotMem []int8, wrongPath
 		if r2 != 0 {
 			c2 = cands(r2, step.B)
 		}
-		// single-operand explanations first
-		for _, x := range c1[1:] {
-			if try(x.v, step.B, step.Loaded) {
-				return name(x, r1)
+		// single-operand explanations first; among them prefer a stale value over a wrong-path value over a
+		// future value (the same bits can often be explained in more than one way)
+		for _, kind := range []int{1, 3, 2} {
+			for _, x := range c1[1:] {
+				if x.kind == kind && try(x.v, step.B, step.Loaded) {
+					return name(x, r1)
+				}
 			}
-		}
-		for _, y := range c2[1:] {
-			if try(step.A, y.v, step.Loaded) {
-				return name(y, r2)
+			for _, y := range c2[1:] {
+				if y.kind == kind && try(step.A, y.v, step.Loaded) {
+					return name(y, r2)
+				}
 			}
 		}
 		for _, x := range c1[1:] {
